@@ -7,6 +7,11 @@ from .. import common as C
 from .. import impl  # noqa: F401
 from .. import drex
 
+# S2: the arithmetic kernels of core.py are re-traced from the source on every run and the bridge theorems
+# (lean/Bridge/Drex.lean: traced_f = ModelR.f) are re-checked by the Lean kernel.
+PRE_LEAN = C.s2_trace_core
+EXTRA_LEAN_MODULES = ("Bridge.Drex",)
+
 PARTIAL = ["floating-point rounding and numba fastmath reassociation (theorems are over the reals; the compiled and "
            "interpreted code paths are both compared with the model within 1e-9 relative)"]
 ASSUMPTIONS = ["np.argsort on four keys is a stable sort (checked by the correspondence, including exact ties)"]
